@@ -310,19 +310,24 @@ impl RecordDefinition<NativeDatumDetails> {
             let datum = datum_definitions
                 .get(d)
                 .unwrap_or_else(|| panic!("datum #{}", d));
-            if byte_offset > datum.details().offset() {
+            // Zero-size data occupy no byte: they do not take part in the address order of the
+            // variant and may be listed before data located at a lower offset.
+            let sized = datum.details().size() > 0;
+            if sized && byte_offset > datum.details().offset() {
                 panic!(
                     "offset clash {} > {}",
                     byte_offset,
                     datum.details().offset()
                 );
             }
-            if byte_offset < datum.details().offset() {
+            if sized && byte_offset < datum.details().offset() {
                 write!(f, "(void, {}), ", datum.details().offset() - byte_offset)?;
             }
             write!(f, "{}", datum)?;
             first = false;
-            byte_offset = datum.details().offset() + datum.details().size();
+            if sized {
+                byte_offset = datum.details().offset() + datum.details().size();
+            }
         }
         write!(f, "]")?;
         Ok(())
